@@ -345,7 +345,7 @@ CLAUSES = [
                 "some sharing key and mask with equal or different forks; "
                 "non-trivial = trees share a key/mask or an entry mixes core "
                 "and link routes",
-           examples={"quick": 700, "thorough": 15000},
+           examples={"quick": 1500, "thorough": 15000},
            shards={"quick": 4, "thorough": 16}),
     Clause("load-and-read-back", check_load, strategy=strat_load,
            rule="tables of 1-1024 entries over all 24 "
@@ -353,6 +353,6 @@ CLAUSES = [
                 "entry points into a router whose free list is empty, "
                 "fragmented or too small; non-trivial = >= 2 entries incl. "
                 "one that routes to a core and a link",
-           examples={"quick": 150, "thorough": 3000},
+           examples={"quick": 400, "thorough": 3000},
            shards={"quick": 8, "thorough": 16}),
 ]
